@@ -25,14 +25,14 @@ ASSUMPTIONS = [
 
 def run(ctx):
     C.check_deciders(ctx)
-    streams = [("guard", ctx.n(70, 900)), ("missing", ctx.n(20, 250)), ("converge", ctx.n(15, 150))]
+    streams = [("guard", ctx.n(65, 650)), ("missing", ctx.n(20, 200)), ("converge", ctx.n(15, 150))]
     if C.INCLUDE_DANGLING:
         streams.append(("dangling", ctx.n(10, 100)))
     items = C.run_stream(ctx, streams, "C05")
     ctx.obligation("oracle:no-unrecoverable-loss", not any(v.kind == "oracle" for v in ctx.violations),
                    f"{len(items)} real checkouts: every byte string lost from the workspace accounted against the cache / prompt")
     ctx.correspond("checkout", C.IMPORTS, "co_in", "fun i => enc_result (run_in i)", items, shard=60)
-    L.run_links(ctx, ctx.n(40, 500))
+    L.run_links(ctx, ctx.n(40, 400))
 
 
 def replay_case(ctx, case):
